@@ -116,6 +116,15 @@ def collect():
         for cat in cats:
             rows.append({"kind": "dtype", "backend": "numpy-byteswapped", "dtype": dt.str, "cls": cls, "cat": cat,
                          "res": check(arr, np.ndarray, cat)})
+    # NumPy SCALARS have a shape and a dtype: with `Any` as the array type they are arrays of rank 0 like any other
+    # (np.float64 / np.complex128 are also subclasses of Python's float / complex)
+    import typing as _typing
+    for base in (np.float64, np.float32, np.complex128, np.int64, np.int32, np.uint8, np.bool_, np.float16):
+        obj = base(1)
+        cls = classify_np(np.dtype(base))
+        for cat in cats:
+            rows.append({"kind": "dtype", "backend": "numpy-scalar-as-Any", "dtype": base.__name__, "cls": cls, "cat": cat,
+                         "res": check(obj, _typing.Any, cat)})
     # structured dtype
     st = np.dtype([("first", np.uint8), ("second", np.int8)])
     arr = np.zeros(2, dtype=st)
